@@ -19,9 +19,13 @@
    (or an observer goroutine it has queued between the operations) holds Stream.mutex and reads, under the mutex, the
    reader table, the owners of the registered callbacks, whether hasReaders is closed, the current sub-stream, the RTSP
    stream; and which calls have returned.  The model must accept the labels, arrive at the same shared state, agree on
-   who has returned, and claim that nobody but the goroutines the driver holds back can move. *)
+   who has returned, and claim that nobody but the goroutines the driver holds back can move.
+
+   HlsForced: a schedule forced on a real pathManager with a real hls.Server attached (Model/C40_HlsLoop.v): program
+   points of pathManager.run and hls.Server.run and the number of muxers that hold their mutex inside
+   pathManager.AddReader, from goroutine dumps. *)
 From Coq Require Import List ZArith Bool Arith.
-Require Export MTX.Model.C40_Rendezvous MTX.Model.C40_CoreLoop MTX.Model.C40_StreamLock.
+Require Export MTX.Model.C40_Rendezvous MTX.Model.C40_CoreLoop MTX.Model.C40_StreamLock MTX.Model.C40_HlsLoop.
 Import ListNotations.
 
 Inductive pmo := OPmIdle | OPmHandle | OPmAnswer | OPmWait | OPmBusy | OPmGone.
@@ -75,11 +79,22 @@ Record zobs := mkZObs {
    hand-over chain, where goroutines that have left their section are still on their way out) *)
 Inductive zseg := ZSeg (ls : list zlab) (frozen : list nat) (held settled cmp : bool) (o : zobs) (watchdog : bool).
 
+(* ---- HLS level ---- *)
+Inductive hpm := OHPmIdle | OHPmHandler | OHPmNotify.
+Inductive hhs := OHHsIdle | OHHsCreate | OHHsMutex | OHHsPath.
+Record hobs := mkHObs { ho_pm : hpm; ho_hs : hhs; ho_init : nat; ho_atpath : nat }.
+Inductive hfroz := FPm | FHs.
+(* HDo l: one step of the model; HDrain: the loops run until nothing can move (any maximal schedule ends in a
+   quiescent state: C40_hls_every_operation_completes) *)
+Inductive hlab := HDo (l : HL.label) | HDrain.
+Inductive hseg := HSeg (ls : list hlab) (frozen : list hfroz) (o : hobs) (settled watchdog : bool).
+
 Inductive case :=
 | Forced (segs : list seg)
 | Soak (evs : list sev)
 | CoreForced (segs : list kseg)
-| StreamForced (segs : list zseg).
+| StreamForced (segs : list zseg)
+| HlsForced (segs : list hseg).
 
 (* ---- observation of a model state ------------------------------------------------------------------------------- *)
 Definition pm_obs (x : pm_pc) : pmo :=
@@ -339,8 +354,79 @@ Fixpoint zcheck_segs (s : SL.state) (segs : list zseg) : bool :=
       end
   end.
 
+(* ---- HLS level ---- *)
+Definition hcandidates (s : HL.state) : list HL.label :=
+  [HL.LPmRecvCall; HL.LPmHandled; HL.LPmNotified false; HL.LHsDrain false; HL.LHsCreated; HL.LHsRecvList;
+   HL.LHsListDone; HL.LHsRecvKick; HL.LHsKickLocked; HL.LHsKickDone]
+  ++ map HL.LPmRecvNotify (seq 0 (length (HL.pas s)))
+  ++ flat_map (fun m => [HL.LPmServeAdd m; HL.LPaServeAdd m false; HL.LMxExitDone m false]) (seq 0 (length (HL.mxs s))).
+
+Definition hinvolves (l : HL.label) : list hfroz :=
+  match l with
+  | HL.LPmRecvCall | HL.LPmHandled | HL.LPmRecvNotify _ | HL.LPmNotified _ | HL.LPmServeAdd _ => [FPm]
+  | HL.LHsDrain _ | HL.LHsCreated | HL.LHsRecvList | HL.LHsListDone | HL.LHsRecvKick | HL.LHsKickLocked
+  | HL.LHsKickDone => [FHs]
+  | _ => []
+  end.
+Definition hfroz_eqb (a b : hfroz) : bool := match a, b with FPm, FPm | FHs, FHs => true | _, _ => false end.
+Definition henabledb (s : HL.state) (l : HL.label) : bool :=
+  match HL.step true s l with Some _ => true | None => false end.
+Definition hsettled (s : HL.state) (frozen : list hfroz) : bool :=
+  forallb (fun l => negb (henabledb s l) || existsb (fun q => existsb (hfroz_eqb q) frozen) (hinvolves l))
+          (hcandidates s).
+
+Fixpoint hfirst (s : HL.state) (ls : list HL.label) : option HL.state :=
+  match ls with
+  | [] => None
+  | l :: t => match HL.step true s l with Some s' => Some s' | None => hfirst s t end
+  end.
+Fixpoint hdrain (fuel : nat) (s : HL.state) : HL.state :=
+  match fuel with
+  | 0 => s
+  | S f => match hfirst s (hcandidates s) with Some s' => hdrain f s' | None => s end
+  end.
+
+Definition hlab_step (s : HL.state) (l : hlab) : option HL.state :=
+  match l with HDo x => HL.step true s x | HDrain => Some (hdrain (HL.measure s) s) end.
+Fixpoint hrun (s : HL.state) (ls : list hlab) : option HL.state :=
+  match ls with
+  | [] => Some s
+  | l :: t => match hlab_step s l with Some s' => hrun s' t | None => None end
+  end.
+
+Definition hpm_obs (x : HL.pm_pc) : hpm :=
+  match x with HL.PmIdle => OHPmIdle | HL.PmHandler => OHPmHandler | HL.PmNotify _ => OHPmNotify end.
+Definition hhs_obs (x : HL.hs_pc) : hhs :=
+  match x with
+  | HL.HsIdle => OHHsIdle | HL.HsCreate _ => OHHsCreate | HL.HsAtMutex | HL.HsKickMutex _ => OHHsMutex
+  | HL.HsAtPath _ => OHHsPath
+  end.
+Definition hpm_eqb (a b : hpm) : bool :=
+  match a, b with OHPmIdle, OHPmIdle | OHPmHandler, OHPmHandler | OHPmNotify, OHPmNotify => true | _, _ => false end.
+Definition hhs_eqb (a b : hhs) : bool :=
+  match a, b with
+  | OHHsIdle, OHHsIdle | OHHsCreate, OHHsCreate | OHHsMutex, OHHsMutex | OHHsPath, OHHsPath => true
+  | _, _ => false
+  end.
+Definition count_mx (f : HL.mx_pc -> bool) (s : HL.state) : nat := length (filter f (HL.mxs s)).
+Definition hobs_matches (s : HL.state) (o : hobs) : bool :=
+  hpm_eqb (hpm_obs (HL.pm s)) (ho_pm o) && hhs_eqb (hhs_obs (HL.hs s)) (ho_hs o)
+  && Nat.eqb (count_mx (fun x => match x with HL.MxInit _ => true | _ => false end) s) (ho_init o)
+  && Nat.eqb (count_mx (fun x => match x with HL.MxAtPath _ => true | _ => false end) s) (ho_atpath o).
+
+Fixpoint hcheck_segs (s : HL.state) (segs : list hseg) : bool :=
+  match segs with
+  | [] => true
+  | HSeg ls fr o settled _ :: r =>
+      match hrun s ls with
+      | Some s' => hobs_matches s' o && (negb settled || hsettled s' fr) && hcheck_segs s' r
+      | None => false
+      end
+  end.
+
 Definition mismatch (c : case) : bool :=
   match c with
+  | HlsForced segs => negb (hcheck_segs HL.init segs)
   | Forced segs => negb (check_segs init segs)
   | Soak evs => early_terminated [] evs
   | CoreForced segs => negb (kcheck_segs kinit segs)
@@ -398,8 +484,20 @@ Fixpoint zspec_segs (prev : option zobs) (segs : list zseg) : bool :=
       || zspec_segs (Some o) r
   end.
 
+(* HLS level, on the observations alone: nothing the scenario waited for (the API listing, the callers) timed out, and
+   at the end both loops are back in their selects with no muxer holding its mutex *)
+Fixpoint hspec_segs (segs : list hseg) : bool :=
+  match segs with
+  | [] => true
+  | [HSeg _ _ o _ wd] =>
+      wd || negb (hpm_eqb (ho_pm o) OHPmIdle && hhs_eqb (ho_hs o) OHHsIdle && Nat.eqb (ho_init o) 0
+                  && Nat.eqb (ho_atpath o) 0)
+  | HSeg _ _ _ _ wd :: r => wd || hspec_segs r
+  end.
+
 Definition spec_fail (c : case) : bool :=
   match c with
+  | HlsForced segs => hspec_segs segs
   | Forced segs =>
       existsb (fun g => match g with Seg _ _ _ _ stuck => stuck end) segs
       || match last_obs segs with
